@@ -214,6 +214,41 @@ def replay(scn):
                     if what:
                         variant += " read=" + sel
                         break
+            if what is None and i["op"] == "flatten" and i["S"] == sorted(i["S"]) and len(i["S"]) < len(a_abs["dims"]) and i["form"] != "set":
+                # flatten(<the dimensions to keep>, reverse=True) groups all the others: the same result as listing them (array order)
+                keep = [p for p in range(1, len(a_abs["dims"]) + 1) if p not in i["S"]]
+                refs = [(a.dims[p - 1] if byname else p - 1) for p in keep]
+                if not byname and len(refs) > 1:
+                    refs[-1] = a.dims[keep[-1] - 1]           # a mix of positions and names
+                kw = {"insert": i["insert"][0]} if i["insert"] else {}
+                calls += 1
+                try:
+                    r2 = a.flatten(tuple(refs) if i["form"] == "tuple" else list(refs), reverse=True, **kw)
+                    w = _cmp(exp["r"], project_grouped(r2, codec), codec, kmap, kname != "mixed")
+                    if w:
+                        what = "flatten(%r, reverse=True): %s" % (refs, w)
+                except Exception as ex:  # noqa
+                    what = "flatten(%r, reverse=True) raised %s: %s" % (refs, type(ex).__name__, str(ex)[:200])
+            if what is None and i["op"] == "reshape":
+                # transpose=False: allowed exactly when the target keeps the dimensions it shares with the array in the array's order
+                flat = [d for g in i["groups"] for d in g]
+                shared_t = [d for d in flat if d in a_abs["dims"]]
+                shared_a = [d for d in a_abs["dims"] if d in flat]
+                names = [",".join(g) for g in i["groups"]]
+                calls += 1
+                try:
+                    r2 = a.reshape(names, transpose=False)
+                    if shared_t != shared_a:
+                        what = "reshape(.., transpose=False) accepted a target that needs a transposition"
+                    else:
+                        w = _cmp(exp["r"], project_grouped(r2, codec), codec, kmap, kname != "mixed")
+                        if w:
+                            what = "reshape(.., transpose=False): " + w
+                except ValueError as ex:
+                    if shared_t == shared_a:
+                        what = "reshape(%r, transpose=False) refused a target that needs no transposition: %s" % (names, str(ex)[:150])
+                except Exception as ex:  # noqa
+                    what = "reshape(.., transpose=False) raised %s: %s" % (type(ex).__name__, str(ex)[:200])
             if what is None and i["op"] == "flatten" and len(i["S"]) >= 2 and i["form"] != "set" and not i["insert"]:
                 # "reducing over a tuple of dimensions equals reducing over the flattened group" - also for the operations that
                 # depend on the order inside the group (arg-extrema, cumulative sums, differences)
